@@ -227,6 +227,8 @@ def run_spline(t):
                 s.add('sp.seg S 0 tl', k, 'junk%d' % k)
                 s.add('sp.eval S tg', k, 'junkg%d' % k)
             s.add('sp.traj OLD S ref')
+            for how in ('copy', 'ppoly', 'ppolycopy'):
+                s.add('sp.traj OLD%s S %s' % (how, how))
             if mode == 'dur':
                 b.update(s, 'S')
                 b.new(s, 'F')
@@ -245,6 +247,8 @@ def run_spline(t):
             for k in (0, 1):
                 for i in range(N0):
                     s.add('pp.seg OLD idx', i, 'tl', k, 'old_%d_%d' % (i, k))
+                    for how in ('copy', 'ppoly', 'ppolycopy'):
+                        s.add('pp.seg OLD%s idx' % how, i, 'tl', k, 'old%s_%d_%d' % (how, i, k))
                     s.add('sp.seg FA', i, 'tl', k, 'fa_%d_%d' % (i, k))
 
             def assume(enc, a=a, b=b):
@@ -264,6 +268,8 @@ def run_spline(t):
                     for i in range(N0):
                         for dd in range(d):
                             sc.uf_eq('copy taken before the update keeps the old trajectory: piece %d order %d [%d]' % (i, k, dd), 'old_%d_%d.%d' % (i, k, dd), 'fa_%d_%d.%d' % (i, k, dd))
+                            for how in ('copy', 'ppoly', 'ppolycopy'):
+                                sc.uf_eq('trajectory obtained through the %s accessor before the update keeps the old data: piece %d order %d [%d]' % (how, i, k, dd), 'old%s_%d_%d.%d' % (how, i, k, dd), 'fa_%d_%d.%d' % (i, k, dd))
                 out.append(sc)
             if not ex.complete:
                 fin = O.Scenario(ID, '%s (exploration)' % t['name'], tu, s, timeout=t['timeout'])
